@@ -143,6 +143,7 @@ type Task struct {
 	lastSite  int
 	segTicks  int64
 	blocked   bool
+	fuelScale int64       // budget multiplier for the next request on this task (see FuelScaleFor)
 	gnum      int64       // the runtime's number of the task's goroutine (to read its state from a stack dump)
 	waiting   bool        // set aside while really blocked
 	mapCtr    map[int]int // per-request counters of map-order decisions (task-local, so a task's orders do not depend on its neighbours)
